@@ -1,7 +1,7 @@
 (* driver_c16.ml — line protocol for property C16 (Model/Streamer.v).
    Tx / Block / header values are opaque blobs (their canonical serialisation); the three parsers are
    oracle callbacks answered by the harness with the REAL Tx.parse / Block.parse / Block.parse_as_header:
-     ?txparse <hex of the unread stream>   ->  00 <consumed:4 bytes BE> <canonical bytes>   |  <1+exception index>
+     ?txparse[@SYM] <hex of the unread stream>   ->  00 <consumed:4 bytes BE> <canonical bytes>   |  <1+exception index>
    post_unpack_merkleblock (owned by C14) is the oracle ?mbpost <hex of the re-packed fields>
      -> 00 <tx hashes, 32 bytes each> | <1+exception index>.
    Value tokens (no spaces):  N T F i<hex> i-<hex> x<hex> (v,v,..) A(i,x,i) V(i,x) t<hex> k<hex> z<hex>
@@ -26,11 +26,15 @@ let oracle_parse (name : string) (s : byte list) : (blob * byte list) outcome =
         Ret (canon, drop n s)
       | _ -> failwith "short oracle answer"
     end else Raise exn_table.(c - 1)
-let parse_t = oracle_parse "txparse"
-let parse_b = oracle_parse "blkparse"
-let parse_z = oracle_parse "hdrparse"
+(* the network whose Tx / Block classes answer the oracles: "" = BTC, "@BTG" = pycoin.symbols.btg, ... ; set by an
+   optional first argument "@SYM" of a case line *)
+let cur_net = ref ""
+let parse_t s = oracle_parse ("txparse" ^ !cur_net) s
+let parse_b s = oracle_parse ("blkparse" ^ !cur_net) s
+let parse_z s = oracle_parse ("hdrparse" ^ !cur_net) s
 let stream_blob (b : blob) : byte list = b
-let header_of (b : blob) : blob = take 80 b
+(* Block.stream_header of a full block: 80 bytes for Bitcoin-layout headers, asked from the network otherwise *)
+let header_of (b : blob) : blob = if !cur_net = "" then take 80 b else oracle ("hdrof" ^ !cur_net) b
 
 let str_of (s : string) : byte list = List.init (String.length s) (fun i -> byte_tab.(Char.code s.[i]))
 let string_of_str (l : byte list) : string = String.concat "" (List.map (fun b -> String.make 1 (Char.chr (int_of_byte b))) l)
@@ -43,7 +47,7 @@ let rec split_hashes l = match l with [] -> [] | _ -> VBytes (take 32 l) :: spli
 let post_merkleblock (d : (byte list * pv) list) : (byte list * pv) list outcome =
   match m_pack (str_of "merkleblock") d with
   | Ret bs ->
-    (match oracle "mbpost" bs with
+    (match oracle ("mbpost" ^ !cur_net) bs with
      | [] -> failwith "empty oracle answer"
      | st :: r ->
        let c = int_of_byte st in
@@ -119,7 +123,11 @@ let rec show_pv (v : pv) : string =
   | VDict d -> show_dict d
 and show_dict d = "{" ^ String.concat " " (List.map (fun (k, v) -> string_of_str k ^ "=" ^ show_pv v) d) ^ "}"
 
-let dispatch f args = match f, args with
+let rec dispatch f args = match f, args with
+  | _, a :: rest when String.length a > 0 && a.[0] = '@' ->
+    cur_net := (if a = "@" || a = "@BTC" then "" else a);
+    let r = (try dispatch f rest with e -> cur_net := ""; raise e) in
+    cur_net := ""; r
   | "pack_struct", [fmt; vals] ->
     (match parse_val vals with
      | VTuple l -> show_outcome show_bytes (m_stream_struct (arg_fmt fmt) l)
